@@ -5,11 +5,14 @@ import (
 	"encoding/binary"
 	"encoding/hex"
 	"encoding/json"
+	"errors"
 	"fmt"
 	"math/big"
 	"math/rand"
+	"net/url"
 	"sort"
 	"strconv"
+	"sync"
 
 	"verifharness/internal/vh"
 
@@ -22,12 +25,31 @@ import (
 	"github.com/nspcc-dev/neo-go/pkg/vm/stackitem"
 )
 
+var (
+	nworlds  int
+	worldsMu sync.Mutex
+)
+
+// openWorld emits the init event of a new world and returns its number.
+func openWorld(tr *vh.Trace, label string, extra map[string]any) int {
+	worldsMu.Lock()
+	defer worldsMu.Unlock()
+	nworlds++
+	ev := map[string]any{"event": "init", "world": label, "w": nworlds}
+	for k, v := range extra {
+		ev[k] = v
+	}
+	tr.Emit(ev)
+	return nworlds
+}
+
 // obs records observations of one world.
 type obs struct {
 	tr  *vh.Trace
 	res *vh.Result
 	r   *rand.Rand
 	w   string // world label
+	wi  int    // world number in the trace (the wi-th init event)
 	// rpcProofEvery: every n-th returned proof is also verified through the verifyproof RPC (all of them locally)
 	rpcProofEvery int
 	nproof        int
@@ -35,17 +57,26 @@ type obs struct {
 
 func (o *obs) base(ev string, n *node, s *srv, via string, h uint32) map[string]any {
 	o.res.Inc("req_"+ev, 1)
-	return map[string]any{"event": ev, "node": n.name, "cfg": n.keep, "srv": s.name, "via": via, "h": h, "at": n.bc.BlockHeight(), "ret": n.retained(h)}
+	return map[string]any{"event": ev, "w": o.wi, "node": n.name, "cfg": n.keep, "srv": s.name, "via": via, "h": h, "at": n.bc.BlockHeight(), "ret": n.retained(h)}
 }
 
 // dropped records a request that got no JSON-RPC response at all (a handler that died takes the connection with it).
 func (o *obs) dropped(n *node, s *srv, method, class string, err error, h ...uint32) {
-	ev := map[string]any{"event": "malformed", "node": n.name, "cfg": n.keep, "srv": s.name, "via": "raw", "method": method, "class": class,
+	ev := map[string]any{"event": "malformed", "w": o.wi, "node": n.name, "cfg": n.keep, "srv": s.name, "via": "raw", "method": method, "class": class,
 		"answered": false, "err": fmt.Sprint(err), "at": n.bc.BlockHeight()}
 	if len(h) > 0 {
 		ev["about"], ev["retained"] = h[0], n.retained(h[0])
 	}
 	o.tr.Emit(ev)
+}
+
+// cerr describes a client-side error; a transport failure (no response: the handler died) is recorded as such.
+func (o *obs) cerr(n *node, s *srv, method string, err error, h uint32) string {
+	var ue *url.Error
+	if errors.As(err, &ue) {
+		o.dropped(n, s, method, "wellformed", err, h)
+	}
+	return err.Error()
 }
 
 func pick(r *rand.Rand) (via string, pfx bool) {
@@ -69,7 +100,7 @@ func (o *obs) getState(n *node, s *srv, h uint32, root util.Uint256, hash util.U
 		x, err := s.cl.GetState(root, hash, key)
 		ok, v = err == nil, x
 		if err != nil {
-			ev["err"] = err.Error()
+			ev["err"] = o.cerr(n, s, "getstate", err, h)
 		}
 	} else {
 		r, e, err := s.raw("getstate", le256(root, pfx), le160(hash, pfx), b64(key))
@@ -156,6 +187,7 @@ func noProof() map[string]any {
 func (o *obs) verifyRec(n *node, s *srv, via string, root util.Uint256, key []byte, nodes [][]byte, rpcCheck bool) map[string]any {
 	rec := noProof()
 	rec["have"] = true
+	rpcCheck = rpcCheck && n.keep != "latest" // getproof / verifyproof are switched off altogether with KeepOnlyLatestState
 	if len(key) >= 4 {
 		rec["id"], rec["k"] = int32(binary.LittleEndian.Uint32(key)), ints(key[4:])
 	} else {
@@ -171,6 +203,8 @@ func (o *obs) verifyRec(n *node, s *srv, via string, root util.Uint256, key []by
 		if via == "client" {
 			if v, err := s.cl.VerifyProof(root, p); err == nil {
 				rec["rok"], rec["rv"] = true, hex.EncodeToString(v)
+			} else {
+				o.cerr(n, s, "verifyproof", err, 0)
 			}
 		} else {
 			r, e, err := s.raw("verifyproof", le256(root, false), p.String())
@@ -196,13 +230,16 @@ func (o *obs) getProof(n *node, s *srv, h uint32, root util.Uint256, hash util.U
 	via, pfx := pick(o.r)
 	ev := o.base("proof", n, s, via, h)
 	ev["id"], ev["ck"], ev["k"] = id, ckOf(hash), ints(key)
+	if n.keep == "latest" {
+		ev["ret"] = false // documented: no proofs at all on such a node
+	}
 	rec := noProof()
 	if via == "client" {
 		p, err := s.cl.GetProof(root, hash, key)
 		if err == nil && p != nil {
 			full, nodes = p.Key, p.Proof
 		} else if err != nil {
-			ev["err"] = err.Error()
+			ev["err"] = o.cerr(n, s, "getproof", err, h)
 		}
 	} else {
 		r, e, err := s.raw("getproof", le256(root, pfx), le160(hash, pfx), b64(key))
@@ -283,6 +320,10 @@ func (s *srv) findStatesReq(via string, pfx bool, root util.Uint256, hash util.U
 		}
 		r, err := s.cl.FindStates(root, hash, prefix, start, mc)
 		if err != nil {
+			var ue *url.Error
+			if errors.As(err, &ue) {
+				a.noresp = err
+			}
 			a.err = err.Error()
 			return a, fromGiven, from
 		}
@@ -489,7 +530,7 @@ func (o *obs) getStorage(n *node, s *srv, h uint32, historic bool, root util.Uin
 		}
 		ok = err == nil
 		if err != nil {
-			ev["err"] = err.Error()
+			ev["err"] = o.cerr(n, s, "getstorage", err, h)
 		}
 		ev["ck"] = []int{}
 		if !byID {
@@ -566,7 +607,7 @@ func (o *obs) findStorage(n *node, s *srv, via string, pfx bool, h uint32, histo
 				a.keys, a.vals = append(a.keys, kv.Key), append(a.vals, kv.Value)
 			}
 		} else {
-			ev["err"] = err.Error()
+			ev["err"] = o.cerr(n, s, "findstorage", err, h)
 		}
 	} else {
 		cp, byID := contractParam(o.r, id, hash, nativeName)
@@ -760,11 +801,24 @@ func (o *obs) invokeLive(n *node, s *srv, calls []call) []string {
 }
 
 // invokeHistoric runs the calls through invokefunctionhistoric with the height given as index, block hash or state root.
-func (o *obs) invokeHistoric(n *node, s *srv, h uint32, how string, bhash, root util.Uint256, calls []call) {
+func (o *obs) invokeHistoric(n *node, s *srv, h uint32, how string, bhash, root util.Uint256, all []call, sample int) {
 	via, pfx := pick(o.r)
 	ev := o.base("historic", n, s, via, h)
 	ev["how"] = how
 	results := []string{}
+	// a seeded sample of the calls recorded live at h (idx: their 1-based positions in the reference list)
+	idx := []int{}
+	var calls []call
+	for i, p := range o.r.Perm(len(all)) {
+		if i < sample {
+			idx = append(idx, p+1)
+		}
+	}
+	sort.Ints(idx)
+	for _, i := range idx {
+		calls = append(calls, all[i-1])
+	}
+	ev["idx"] = idx
 	for _, c := range calls {
 		o.res.Inc("req_invokefunctionhistoric", 1)
 		if via == "client" {
@@ -782,7 +836,7 @@ func (o *obs) invokeHistoric(n *node, s *srv, h uint32, how string, bhash, root 
 			}
 			if err != nil {
 				results = append(results, "UNAVAILABLE")
-				ev["err"] = err.Error()
+				ev["err"] = o.cerr(n, s, "invokefunctionhistoric", err, h)
 				continue
 			}
 			results = append(results, canonInvoke(r))
